@@ -132,11 +132,12 @@ func RaceMain() {
 					close(start)
 					tw.Wait()
 					c.CheckShared("after all threads (free run)")
+					c.Finish()
 					n := int64(len(sp.Bodies))
 					mu.Lock()
 					cases++
 					pairs += n * (n - 1) / 2
-					results = append(results, done{sp, c.Logs, c.Problems})
+					results = append(results, done{sp, c.AllLogs(), c.Problems})
 					mu.Unlock()
 				}
 			}()
@@ -159,8 +160,11 @@ func RaceMain() {
 		for i := range sp.Bodies {
 			k := soloKey(sp, i)
 			if _, ok := solo[k]; !ok {
-				solo[k] = soloThread(sp, i)
+				solo[k] = SoloThread(sp, i)
 			}
+		}
+		if _, ok := solo[sp.Scenario+"|template"]; !ok {
+			solo[sp.Scenario+"|template"] = SoloTemplate(sp)
 		}
 	}
 
@@ -177,6 +181,9 @@ func RaceMain() {
 		var want [][]string
 		for i := range d.sp.Bodies {
 			want = append(want, solo[soloKey(d.sp, i)])
+		}
+		if t := solo[d.sp.Scenario+"|template"]; t != nil {
+			want = append(want, t)
 		}
 		w, g := RenderLogs(want), RenderLogs(d.logs)
 		if len(d.prob) > 0 {
@@ -201,12 +208,6 @@ func gcd(a, b int) int {
 		a, b = b, a%b
 	}
 	return a
-}
-
-func soloThread(sp Spec, i int) []string {
-	c := NewCase(sp, Options{Baseline: true})
-	c.Threads[i]()
-	return c.Logs[i]
 }
 
 // ---------------------------------------------------------------------------
